@@ -657,6 +657,37 @@ pub fn families(quick: bool) -> Vec<(&'static str, Vec<Vec<Decl>>)>
 {
 	let mut out: Vec<(&'static str, Vec<Vec<Decl>>)> = Vec::new();
 	out.push(("leaf forms", leaf_forms().into_iter().map(wrap_expr).collect()));
+	// every byte value as an escape in string and character position, every printable ASCII
+	// character raw, and every simple escape
+	let mut v = Vec::new();
+	for byte in 0..=255u32
+	{
+		v.push(wrap_expr(Expr::Str(vec![format!("\"a\\x{byte:02x}z\"")])));
+		v.push(wrap_expr(Expr::Str(vec![format!("\"\\x{byte:02X}\"")])));
+		v.push(wrap_expr(Expr::Char(format!("'\\x{byte:02x}'"))));
+	}
+	for c in 0x20u8..0x7f
+	{
+		let ch = c as char;
+		if ch != '"' && ch != '\\'
+		{
+			v.push(wrap_expr(Expr::Str(vec![format!("\"{ch}\"")])));
+		}
+		if ch != '\'' && ch != '\\'
+		{
+			v.push(wrap_expr(Expr::Char(format!("'{ch}'"))));
+		}
+	}
+	for esc in ["n", "r", "t", "\\", "'", "\"", "0"]
+	{
+		v.push(wrap_expr(Expr::Str(vec![format!("\"\\{esc}\"")])));
+		v.push(wrap_expr(Expr::Char(format!("'\\{esc}'"))));
+	}
+	for u in ["0", "7f", "80", "7ff", "800", "ffff", "10000", "10ffff", "20ac", "e9", "00e9"]
+	{
+		v.push(wrap_expr(Expr::Str(vec![format!("\"\\u{{{u}}}\"")])));
+	}
+	out.push(("literal bytes and escapes", v));
 	// every operator x every leaf form in each operand slot
 	let mut v = Vec::new();
 	let leaves = leaf_forms();
